@@ -124,5 +124,9 @@ _public_ int m_mod_set_batch_timeout(m_mod_t *mod, uint64_t timeout_ns) {
         }
         return m_mod_src_register_tmr(mod, &mod->batch.timer, M_SRC_INTERNAL | M_SRC_PRIO_HIGH, &mod->batch);
     }
+    // Timed batching is off again: so is the maximum value that stood for it
+    if (mod->batch.len == SIZE_MAX) {
+        mod->batch.len = 0;
+    }
     return 0;
 }
